@@ -437,6 +437,7 @@ theorem gen_source_Stateless_f_Tracker_Shutdown : Gen.Stateless.f_Tracker_Shutdo
 theorem gen_source_Stateless_f_Tracker_Track : Gen.Stateless.f_Tracker_Track = Expected.Stateless.f_Tracker_Track := rfl
 theorem gen_source_Stateless_f_Tracker_Untrack : Gen.Stateless.f_Tracker_Untrack = Expected.Stateless.f_Tracker_Untrack := rfl
 theorem gen_source_Stateless_f_Tracker_StatusAll : Gen.Stateless.f_Tracker_StatusAll = Expected.Stateless.f_Tracker_StatusAll := rfl
+theorem gen_source_Stateless_f_Tracker_statusAll : Gen.Stateless.f_Tracker_statusAll = Expected.Stateless.f_Tracker_statusAll := rfl
 theorem gen_source_Stateless_f_Tracker_Status : Gen.Stateless.f_Tracker_Status = Expected.Stateless.f_Tracker_Status := rfl
 theorem gen_source_Stateless_f_Tracker_RecoverAll : Gen.Stateless.f_Tracker_RecoverAll = Expected.Stateless.f_Tracker_RecoverAll := rfl
 theorem gen_source_Stateless_f_Tracker_Recover : Gen.Stateless.f_Tracker_Recover = Expected.Stateless.f_Tracker_Recover := rfl
